@@ -44,6 +44,8 @@ type Config struct {
 	Journal string
 	EmitAt  int64
 	EmitOut string
+	// StopAt > 0: execute the stream up to and including case number StopAt-1, then stop (history replay).
+	StopAt int64
 }
 
 type base struct {
@@ -218,8 +220,8 @@ func (g *gen) mine() bool {
 }
 
 func (g *gen) expired() bool {
-	if g.cfg.EmitOut != "" {
-		return g.stop // regenerate the stream until the wanted case, whatever the clock says
+	if g.cfg.EmitOut != "" || g.cfg.StopAt > 0 {
+		return g.stop // regenerate / re-execute the stream until the wanted case, whatever the clock says
 	}
 	return g.stop || time.Now().After(g.cfg.Deadline)
 }
@@ -242,6 +244,10 @@ func (g *gen) run(c *Case, nontrivial bool) {
 			os.WriteFile(g.cfg.EmitOut, raw, 0o644)
 			g.stop = true
 		}
+		return
+	}
+	if g.cfg.StopAt > 0 && seq >= g.cfg.StopAt {
+		g.stop = true
 		return
 	}
 	if g.journal != nil {
@@ -282,7 +288,7 @@ func (g *gen) run(c *Case, nontrivial bool) {
 			rec.Prelude = append(rec.Prelude, pc)
 		}
 		raw, _ := json.Marshal(&rec)
-		g.st.Violations = append(g.st.Violations, evid.Violation{Property: g.cfg.Prop, Signature: v.sig, What: v.what, Case: raw})
+		g.st.Violations = append(g.st.Violations, evid.Violation{Property: g.cfg.Prop, Signature: v.sig, What: v.what, Case: raw, Seq: seq, W: g.cfg.W})
 		if len(g.st.Violations) >= g.vcap {
 			g.stop = true
 		}
